@@ -203,3 +203,15 @@ Proof.
   repeat (destruct Hc as [Hc|Hc]; [try discriminate; injection Hc as <- <-; intros d sp y []|]).
   destruct Hc.
 Qed.
+
+(* interleaving: before an operation of side s, the ids not yet allocated may be given colour s *)
+Lemma inv_recolor col h s :
+  closed h -> sep col h -> inv (fun x => if Pos.leb (next h) x then s else col x) s h.
+Proof.
+  intros Hc Hs. split; [exact Hc|]. split.
+  - intros x c Hx y Hy. destruct (Hc _ _ Hx) as [H1 H2].
+    assert (Hy' : y < next h) by (apply H2, own_links_links, Hy).
+    destruct (Pos.leb_spec (next h) x); [lia|]. destruct (Pos.leb_spec (next h) y); [lia|].
+    apply (Hs _ _ Hx y Hy).
+  - intros x Hx. destruct (Pos.leb_spec (next h) x); [reflexivity|lia].
+Qed.
